@@ -1,6 +1,7 @@
 package PKGNAME
 
 import (
+	"context"
 	"io"
 	"io/fs"
 	"time"
@@ -91,7 +92,16 @@ func hxReadAll(r io.Reader) ([]byte, error) {
 	return out, nil
 }
 
-var hxOpNames = []string{"WriteTo", "Write", "NewReader", "UpdateReader", "failed-WriteTo"}
+var hxOpNames = []string{"WriteTo", "Write", "NewReader", "UpdateReader", "failed-WriteTo", "Send"}
+
+// hxEndCRLF appends the line end the SMTP DATA writer adds to content that
+// does not end in one.
+func hxEndCRLF(b []byte) []byte {
+	if n := len(b); n >= 2 && b[n-2] == '\r' && b[n-1] == '\n' {
+		return b
+	}
+	return append(append([]byte{}, b...), '\r', '\n')
+}
 
 func HarnessC11Repeat() {
 	n := svParam("n", 1)
@@ -147,9 +157,10 @@ func HarnessC11Repeat() {
 	var ref []byte
 	haveRef := false
 	refOp := ""
+	refSend := false
 	var rd *Reader
 	for k := 0; k < nops; k++ {
-		op := svPick("op", len(hxOpNames))
+		op := svPick("op", svParam("opkinds", len(hxOpNames)))
 		var out []byte
 		var err error
 		ok := true
@@ -176,6 +187,31 @@ func HarnessC11Repeat() {
 			_, err = m.WriteTo(fw)
 			svAssert(err != nil, "failed-render-without-error")
 			ok = false
+		case 5:
+			// delivery to an accepting server: what the server commits is a render too
+			// (for content without bare CR / LF: SMTP transports lines, the DATA
+			// writer canonicalises anything else)
+			hxAssumeText(content)
+			for i, ch := range content {
+				if ch == '\n' {
+					svAssume(i > 0 && content[i-1] == '\r')
+				}
+			}
+			srv := hxNewSrv([]string{"8BITMIME"})
+			srv.onlyOK = true
+			cl := hxNewClient(srv)
+			if derr := cl.DialWithContext(context.Background()); derr != nil {
+				svAssert(false, "setup-dial")
+				return
+			}
+			err = cl.Send(m)
+			if err == nil {
+				svAssert(len(srv.commits) == 1, "[Send] number of committed messages")
+				if len(srv.commits) != 1 {
+					return
+				}
+				out = srv.commits[0].data
+			}
 		}
 		if !ok {
 			continue
@@ -188,7 +224,11 @@ func HarnessC11Repeat() {
 		}
 		if !haveRef {
 			ref, haveRef, refOp = out, true, hxOpNames[op]
+			refSend = op == 5
 			continue
+		}
+		if op == 5 || refSend {
+			out, ref = hxEndCRLF(out), hxEndCRLF(ref)
 		}
 		svReach("compared")
 		svAssert(len(out) == len(ref), tag+"output-length-differs")
